@@ -75,6 +75,50 @@ def phase0 (test : RecheckTest) (a : Arg) (produced visible : Bool) : Status :=
       | .placeholderInType => visible
     if recheck then .recheckedWithHint else .synthesisedFinal
 
+/-! ## hint propagation through if / else-if / else (`check_if_else`, main_checker.rs:937-977)
+
+The then-block is checked with the hint of the whole if/else; the else part — `else { … }`
+(`check_block`) as well as `else if …` (`check_if_else`) — is checked with the *type of the then-block*
+as hint; the type of the if/else is the type of the then-block. `check_block` hands its hint to the
+block's final expression. -/
+
+/-- where the `else if` continuation takes its hint from (generated from the source) -/
+inductive ElseIfHint where
+  | firstBranch   -- `type_hint::available(&e1.common.type_)`
+  | enclosing     -- the `hint` of the enclosing if/else
+  deriving DecidableEq, Repr
+
+/-- an if/else tree over opaque branch blocks -/
+inductive IfTree (β : Type) where
+  | blk (b : β)                          -- a plain block / the final `else { b }`
+  | ite (thenB : β) (els : IfTree β)      -- `if c { thenB } else els`; `els = ite ..` is `else if`
+  | wrapped (t : IfTree β)                -- `{ t }`: a block whose final expression is an if/else
+  deriving Repr
+
+def IfTree.isIte {β : Type} : IfTree β → Bool
+  | .ite _ _ => true
+  | _ => false
+
+/-- the hint every branch block receives (in source order) and the resulting type;
+`ty b h` = type of block `b` when checked with hint `h`. -/
+def hints {β τ : Type} (rule : ElseIfHint) (ty : β → Option τ → τ) :
+    Option τ → IfTree β → List (β × Option τ) × τ
+  | h, .blk b => ([(b, h)], ty b h)
+  | h, .wrapped t => hints rule ty h t
+  | h, .ite b els =>
+    let t1 := ty b h
+    let hElse : Option τ :=
+      match rule with
+      | .firstBranch => some t1
+      | .enclosing => if els.isIte then h else some t1
+    ((b, h) :: (hints rule ty hElse els).1, t1)
+
+/-- remove every block wrapper -/
+def IfTree.strip {β : Type} : IfTree β → IfTree β
+  | .blk b => .blk b
+  | .ite b els => .ite b els.strip
+  | .wrapped t => t.strip
+
 /-! ## the rewrite "make an inferred lambda-parameter type explicit" -/
 
 def annotateAt : Nat → List Bool → List Bool
